@@ -339,6 +339,7 @@ func c11CheckClean(name string, ents []sstEntry, dir string, res *fw.Result, uni
 	// point lookups
 	for _, e := range ents {
 		res.Evaluations++
+		fw.Alive()
 		v, err := r.Get(e.Key)
 		if err != nil {
 			viol("get-missing", fmt.Sprintf("Get(%q) -> %v; key was written", clip(e.Key), err))
@@ -363,6 +364,7 @@ func c11CheckClean(name string, ents []sstEntry, dir string, res *fw.Result, uni
 			stride = n / 150
 		}
 		getOK := func(e sstEntry, ctx string) bool {
+			fw.Alive()
 			v, err := r.Get(e.Key)
 			res.Evaluations++
 			if err != nil {
